@@ -35,7 +35,7 @@ func init() {
 			"full permutation coverage of Go map iteration orders is not claimed; the evidence lists how many distinct orders the hook observed per site",
 			"generated sets that are supposed to be valid but are rejected are reported (class valid-set-rejected) and triaged as generator or implementation defects",
 		},
-		minEvents: []string{"compilations", "sets_accepted", "cycle_sets", "dangling_sets", "repetition_groups"},
+		minEvents: []string{"compilations", "sets_accepted", "cycle_sets", "dangling_sets", "repetition_groups", "sets_with_homonymous_definitions_in_other_modules"},
 	}})
 }
 
@@ -107,6 +107,8 @@ var c11Injectors = []c11Injector{
 		addBody(modA(ms), yang.S("grouping", "cyg", yang.S("list", "gli", yang.S("key", "k"), yang.S("leaf", "k", yang.S("type", "string")), yang.S("uses", "cyg"))))
 		return true
 	}},
+	// (two same-named groupings in sibling scopes are refused by the repository's parser
+	// — "cannot shadow grouping" — so homonyms are placed in different modules instead, see c11AddHomonyms)
 	{"grouping-mutual", true, func(r *core.Rng, ms *yang.ModSet) bool {
 		addBody(modA(ms), yang.S("grouping", "cya", yang.S("uses", "cyb")), yang.S("grouping", "cyb", yang.S("container", "bc", yang.S("uses", "cya"))), yang.S("container", "cyuse", yang.S("uses", "cya")))
 		return true
@@ -287,6 +289,7 @@ type c11Case struct {
 	ms       *yang.ModSet
 	injector string
 	kind     string // valid | cycle | dangling
+	homonyms bool
 }
 
 func c11Gen(seed int64, idx int) c11Case {
@@ -324,7 +327,47 @@ func c11Gen(seed int64, idx int) c11Case {
 			c.injector, c.kind = in.name, "dangling"
 		}
 	}
+	// homonyms: well-formed definitions carrying the names the injectors use, in the other
+	// modules (for valid sets: in every module).  Names are scoped per module, so a verdict
+	// must not depend on which of two same-named definitions the compiler meets first.
+	if len(ms.Mods) >= 2 && r.Chance(1, 2) {
+		n := 0
+		for i, m := range ms.Mods {
+			if m.Kw != "module" || (i == 0 && c.kind != "valid") {
+				continue
+			}
+			c11AddHomonyms(m, n)
+			n++
+		}
+		if n > 0 {
+			c.homonyms = true
+		}
+	}
 	return c
+}
+
+func c11AddHomonyms(m *yang.Stmt, n int) {
+	tag := strings.ReplaceAll(m.Arg, "_", "-")
+	var kids []*yang.Stmt
+	for _, g := range []string{"cyg", "cya", "cyb", "sg", "mg", "no-such-grouping"} {
+		kids = append(kids, yang.S("grouping", g, yang.S("leaf", "hom-"+g+"-leaf", yang.S("type", "string"))))
+	}
+	for _, t := range []string{"cyt", "cyt1", "cyt2", "no-such-type"} {
+		kids = append(kids, yang.S("typedef", t, yang.S("type", "int16")))
+	}
+	for _, t := range []string{"cyi", "cyi1", "cyi2", "cyi3", "no-such-identity"} {
+		kids = append(kids, yang.S("identity", t))
+	}
+	for _, t := range []string{"cyf", "cyf1", "cyf2", "no-such-feature"} {
+		kids = append(kids, yang.S("feature", t))
+	}
+	kids = append(kids, yang.S("container", "hom-"+tag,
+		yang.S("uses", "cyg"), yang.S("container", "ha", yang.S("uses", "cya")), yang.S("container", "hb", yang.S("uses", "cyb")),
+		yang.S("container", "hs", yang.S("uses", "sg")), yang.S("container", "hm", yang.S("uses", "mg")), yang.S("container", "hn", yang.S("uses", "no-such-grouping")),
+		yang.S("leaf", "ht", yang.S("type", "cyt")), yang.S("leaf", "ht1", yang.S("type", "cyt1")), yang.S("leaf", "ht2", yang.S("type", "cyt2")), yang.S("leaf", "htn", yang.S("type", "no-such-type")),
+		yang.S("leaf", "hi", yang.S("type", "identityref", yang.S("base", "cyi1"))),
+		yang.S("leaf", "hf", yang.S("type", "string"), yang.S("if-feature", "cyf1"))))
+	addBody(m, kids...)
 }
 
 func (p *c11) Describe(tier string, seed int64, idx int) string {
@@ -336,7 +379,7 @@ func (p *c11) Describe(tier string, seed int64, idx int) string {
 	}
 	sort.Strings(names)
 	var b strings.Builder
-	fmt.Fprintf(&b, "kind=%s injector=%s features=%v\n", c.kind, c.injector, c.ms.Features)
+	fmt.Fprintf(&b, "kind=%s injector=%s homonyms=%v features=%v\n", c.kind, c.injector, c.homonyms, c.ms.Features)
 	for _, n := range names {
 		fmt.Fprintf(&b, "---- %s\n%s", n, texts[n])
 	}
@@ -365,6 +408,9 @@ func (p *c11) Run(tier string, seed int64, idx int) core.CaseResult {
 	R := tierN(tier, 8, 24)
 	var first compileResult
 	res.Ev("repetition_groups", 1)
+	if c.homonyms {
+		res.Ev("sets_with_homonymous_definitions_in_other_modules", 1)
+	}
 	switch c.kind {
 	case "cycle":
 		res.Ev("cycle_sets", 1)
